@@ -240,16 +240,29 @@ class Roles:
     # ---- slot map roles
     @property
     def slot_enum(self):
-        """The crate enum E such that some crate struct has a field of type Pin<Box<[E<F>]>>."""
+        """(enum path, slot-map struct path, slots field name): the crate enum with an occupied(F) and a free(usize)
+        variant, and the crate struct (with its own usize bookkeeping fields) that stores values of it.  The *shape* of
+        the storage (Pin<Box<[E<F>]>>) is C08's obligation, not part of the role."""
         def find():
+            cands = []
             for path, adt in self.f.adts.items():
-                if adt["kind"] != "struct":
+                if adt["kind"] != "enum" or "::_::" in path:
                     continue
-                for fld in adt["variants"][0]["fields"]:
-                    m = re.match(r"core::pin::Pin<alloc::boxed::Box<\[([\w:]+)<", fld["ty"])
-                    if m and m.group(1) in self.f.adts and self.f.adts[m.group(1)]["kind"] == "enum":
-                        return (m.group(1), path, fld["name"])
-            raise AnchorLost("SLOT: no struct field of type Pin<Box<[Enum<F>]>> in the crate")
+                gp = adt["generics"]
+                occ = [v for v in adt["variants"] if len(v["fields"]) == 1 and v["fields"][0]["ty"] in gp]
+                free = [v for v in adt["variants"] if len(v["fields"]) == 1 and v["fields"][0]["ty"] == "usize"]
+                if len(adt["variants"]) == 2 and occ and free:
+                    cands.append(path)
+            for e in cands:
+                for path, adt in self.f.adts.items():
+                    if adt["kind"] != "struct" or "::_::" in path:
+                        continue
+                    flds = adt["variants"][0]["fields"]
+                    holder = [f for f in flds if (e + "<") in f["ty"]]
+                    usz = [f for f in flds if f["ty"] == "usize"]
+                    if holder and len(usz) >= 2:
+                        return (e, path, holder[0]["name"])
+            raise AnchorLost("SLOT: no crate enum {occupied(F), free(usize)} stored by a struct with usize bookkeeping")
         return self._c("slot", find)
 
     @property
